@@ -21,15 +21,17 @@ import coqlit as L
 ID = "C19"
 COQ_PROPERTY_FILE = "Properties/C19.v"
 COQ_DEPS = ["Common/ListX.v", "Common/ObsHash.v", "Generated/Tables.v", "Model/Copy.v", "Proofs/CopyProofs.v",
-            "Proofs/CopyInvProofs.v", "Proofs/CopyFreshProofs.v", "Proofs/CopyBridge.v"]
-COQ_IMPORTS = "From Mesa Require Import Model.Copy."
-COQ_CASE_TYPE = "case"
-COQ_RUN = "run_case"
+            "Proofs/CopyInvProofs.v", "Proofs/CopyFreshProofs.v", "Proofs/CopyBridge.v", "Model/CopyWorld.v",
+            "Proofs/CopyWorldProofs.v"]
+COQ_IMPORTS = "From Mesa Require Import Model.Copy Model.CopyWorld."
+COQ_CASE_TYPE = "wcase"
+COQ_RUN = "run_world"
 TABLE_CONSTRUCTS = ["c19_cell_slots", "c19_cell_getstate", "c19_gridcell_pickle", "c19_gridcell_unpickle", "c19_grid_getstate",
                     "c19_grid_setstate_classes", "c19_grid_setstate_descr", "c19_dspace_setstate", "c19_agentset_state"]
 ENUM_ALWAYS = False
 
-E_FULL, E_NODIR, E_EXISTS, E_MISSING, E_KEY = 1, 2, 3, 4, 5
+E_FULL, E_NODIR, E_EXISTS, E_MISSING, E_KEY, E_FIXED = 1, 2, 3, 4, 5, 6
+USER_NAMES = (10, 11)
 LAYER = {0: "empty", 1: "elev", 2: "heat"}
 LAYER_ID = {v: k for k, v in LAYER.items()}
 MISSING = -7
@@ -49,8 +51,11 @@ VOR_POINTS = [
 RULE = ("histories = one cell space (Moore/von Neumann grid in 1-3 dimensions, hex grid, network, Voronoi; dims <= 3x3, "
         "torus flag, capacity None/1/2, 0-2 extra int property layers) or one AgentSet; 0-8 operations before the copy "
         "(moves/placements incl. into full cells, leave, relative moves along connection keys, cell-attribute writes, layer "
-        "writes, fill, add/remove layer), a copy (deepcopy or pickle, of the space or of the model holding it), then 4-14 "
-        "further operations on either side incl. copies of copies; every side fully observed after every operation; "
+        "writes, fill, add/remove layer, FixedAgent placement, agent.remove(), user attributes on cells, removing the 'empty' "
+        "layer), a copy (deepcopy or pickle, of the space or of the model holding it), then 4-14 "
+        "further operations on either side incl. copies of copies; agent-set histories incl. forgetting all references + gc; "
+        "every side fully observed after every operation (cells, layers, connections, model registry incl. off-grid agents, "
+        "model pointers, model.grid, agent kinds, user attributes); "
         "non-trivial = contains a copy that succeeded and at least 2 later operations that changed something; "
         "distinct = by SHA1 of the history")
 TRUSTED_BASE = [
@@ -74,11 +79,20 @@ ASSUMPTIONS = [
     "a rejected move (cell full) is normalised by the driver to 'the agent is off the grid' because the state the rejected "
     "setter leaves behind is the subject of C06/C18 (DESIGN section 5 row 2), not of C19; a move to the agent's own "
     "current cell is not performed",
-    "instance attributes set by user code on cells, hand-made connections (Cell.connect/disconnect after construction) and "
-    "agents that are not in any cell are not part of the statement and are not observed on the copy",
+    "user attributes in the instance __dict__ of cells are observed (kept by Network/Voronoi cells, dropped by grid cells: "
+    "documented behaviour, C19_user_attrs_carried); hand-made connections (Cell.connect after construction) are never "
+    "carried (C19_handmade_connections_not_carried) and are not generated",
+    "a copy of a SPACE reaches the model object only through an agent standing on the grid; when no agent does, the "
+    "program gives the copied space a new empty model and the off-grid agents of the source are not expected on the copy",
+    "FixedAgent.remove() (which leaves the agent's cell pointer set, a C06 matter) is not performed; a removed agent keeps "
+    "its label in the program's table and can be placed again",
+    "an agent-set side whose model ever created an agent cannot be forgotten: Agent._ids (class-level, keyed by model) "
+    "keeps the model, whose registry keeps the agents",
     "values written to the bool layer 'empty' are 0/1; extra layers are int layers with small int values",
     "Voronoi capacities are observed as min(capacity, 99)",
-    "the grid's own property layer 'empty' is never removed (remove_property_layer('empty') is not performed)",
+    "remove_property_layer(name) for name = 'empty' is performed by the separate operation `delempty`; afterwards the "
+    "instance attribute cell.empty is excluded from the faithful / fresh comparisons (a grid copy drops it: "
+    "C19_remove_empty_copy_refuted) but stays in the correspondence",
 ]
 
 
@@ -236,7 +250,18 @@ def _gen_ops(rng, case, n_pre, n_post, force_copy=True):
     def gen_one(s):
         sd = sides[s]
         r = rng.random()
-        if r < 0.42 or not sd["labels"]:
+        if r < 0.035:
+            lab = rng.choice(sd["labels"]) if sd["labels"] and rng.random() < 0.3 else rng.randint(1, 9)
+            if lab not in sd["labels"]:
+                sd["labels"].append(lab)
+            return ["placefixed", s, lab, rng.randrange(ncell)]
+        if r < 0.07 and sd["labels"]:
+            return ["kill", s, rng.choice(sd["labels"])]
+        if r < 0.11:
+            return ["setuser", s, rng.randrange(ncell), rng.choice(USER_NAMES), rng.randint(0, 9)]
+        if r < 0.12 and isgrid:
+            return ["delempty", s]
+        if r < 0.45 or not sd["labels"]:
             if sd["labels"] and rng.random() < 0.6:
                 lab = rng.choice(sd["labels"])
             else:
@@ -244,9 +269,9 @@ def _gen_ops(rng, case, n_pre, n_post, force_copy=True):
                 if lab not in sd["labels"]:
                     sd["labels"].append(lab)
             return ["move", s, lab, rng.randrange(ncell)]
-        if r < 0.50:
+        if r < 0.53:
             return ["leave", s, rng.choice(sd["labels"])]
-        if r < 0.62:
+        if r < 0.64:
             keys = sorted({k for conns in geom for k, _ in conns})
             if keys and rng.random() < 0.85:
                 k = rng.choice(keys)
@@ -309,7 +334,9 @@ def _gen_aset_case(rng):
         if i == 0 or r < 0.2:
             ops.append(["scopy", rng.randrange(2), rng.randrange(nsides)])
             nsides = min(MAX_SIDES, nsides + 1)
-        elif r < 0.55:
+        elif r < 0.25:
+            ops.append(["sforget", rng.randrange(nsides)])
+        elif r < 0.58:
             ops.append(["sadd", rng.randrange(nsides), rng.randint(1, 8)])
         elif r < 0.8:
             ops.append(["sdiscard", rng.randrange(nsides), rng.randint(1, 8)])
@@ -354,7 +381,9 @@ def enumerate_cases(tier, broken=False):
                             ncell = len(_coords(case))
                             last = ncell - 1
                             keys = sorted({k for conns in _geom(case) for k, _ in conns}) or [0]
-                            ops = [["move", 0, 1, 0], ["move", 0, 2, last], ["copy", mech, 0, root],
+                            ops = [["move", 0, 1, 0], ["move", 0, 2, last], ["placefixed", 0, 5, 0], ["move", 0, 6, 0],
+                                   ["leave", 0, 6], ["move", 0, 7, last], ["kill", 0, 7], ["setuser", 0, last, 10, 4],
+                                   ["copy", mech, 0, root], ["move", 1, 5, last], ["move", 1, 6, last], ["kill", 1, 1],
                                    ["setattr", 1, last, 0, 1], ["move", 1, 3, last], ["move", 1, 1, last],
                                    ["relmove", 1, 2, rng.choice(keys)], ["leave", 1, 2], ["move", 0, 2, 0],
                                    ["copy", 1 - mech, 1, 0], ["move", 2, 4, last], ["leave", 2, 4]]
@@ -369,7 +398,9 @@ def enumerate_cases(tier, broken=False):
                 for root in (0, 1):
                     case = {"kind": "space", "stype": "net", "dims": [], "torus": False, "cap": cap, "n": n,
                             "edges": edges, "vor": 0, "capfun": 0, "layers": []}
-                    case["ops"] = [["move", 0, 1, 0], ["move", 0, 2, n - 1], ["copy", mech, 0, root], ["move", 1, 3, n - 1],
+                    case["ops"] = [["move", 0, 1, 0], ["move", 0, 2, n - 1], ["placefixed", 0, 5, 0], ["move", 0, 6, 0], ["leave", 0, 6],
+                                   ["setuser", 0, n - 1, 11, 3], ["copy", mech, 0, root], ["move", 1, 6, 0], ["move", 1, 5, n - 1],
+                                   ["setuser", 1, n - 1, 11, 8], ["move", 1, 3, n - 1],
                                    ["relmove", 1, 1, n - 1], ["leave", 0, 1], ["copy", 1 - mech, 1, 0], ["move", 2, 1, 0]]
                     yield case
     for v in range(len(VOR_POINTS)):
@@ -387,7 +418,7 @@ def enumerate_cases(tier, broken=False):
         for mech in (0, 1):
             yield {"kind": "aset", "stype": "aset", "init": init,
                    "ops": [["scopy", mech, 0], ["sadd", 1, 9], ["sdiscard", 0, 1], ["sremove", 1, 1], ["sremove", 1, 1],
-                           ["scopy", 1 - mech, 1], ["sadd", 2, 1], ["sadd", 0, 9]]}
+                           ["scopy", 1 - mech, 1], ["sadd", 2, 1], ["sadd", 0, 9], ["sforget", 1], ["sadd", 1, 4], ["sforget", 0]]}
 
 
 # ------------------------------------------------------------------ implementation side
@@ -402,7 +433,7 @@ def _agent_classes():
     """agent classes must be importable by name for pickle: defined once, registered as attributes of this module"""
     if not _AGENT_CLASSES:
         import mesa
-        from mesa.discrete_space import CellAgent
+        from mesa.discrete_space import CellAgent, FixedAgent
 
         class VAgent(CellAgent):
             def __init__(self, model, vid):
@@ -414,7 +445,13 @@ def _agent_classes():
                 super().__init__(model)
                 self.vid = vid
 
-        for k in (VAgent, VPlain):
+        class VFixed(FixedAgent):
+            def __init__(self, model, vid):
+                super().__init__(model)
+                self.vid = vid
+
+        _AGENT_CLASSES["fixed"] = VFixed
+        for k in (VAgent, VPlain, VFixed):
             k.__module__ = __name__
             k.__qualname__ = k.__name__
             globals()[k.__name__] = k
@@ -530,7 +567,32 @@ def _abs(case, side):
         members = [getattr(a, "vid", -1) for a in sp.agents]
     except Exception:  # noqa: BLE001
         members = [-99]
-    return {"cells": out_cells, "conns": conns, "wired": wired, "empties": empties, "members": members}
+    model = side.model
+    fixed_cls = _AGENT_CLASSES.get("fixed")
+    try:
+        registry = [getattr(a, "vid", -1) for a in model._agents]
+    except Exception:  # noqa: BLE001
+        registry = [-99]
+    try:
+        api = [getattr(a, "vid", -1) for a in model.agents]
+    except Exception:  # noqa: BLE001
+        api = [-98]
+    kinds = [1 if (fixed_cls is not None and isinstance(a, fixed_cls)) else 0 for c in cells for a in c._agents]
+    ptr = 1
+    for a in list(side.tab.values()) + [a for c in cells for a in c._agents]:
+        if getattr(a, "model", None) is not model:
+            ptr = 0
+    gridptr = 1 if getattr(model, "grid", None) is sp else 0
+    user = [[int(c.__dict__.get(f"u{n}", MISSING)) for n in USER_NAMES] for c in cells]
+    return {"cells": out_cells, "conns": conns, "wired": wired, "empties": empties, "members": members,
+            "registry": registry, "api": api, "kinds": kinds, "ptr": ptr, "gridptr": gridptr, "user": user}
+
+
+def _world_obs(k, ab):
+    out = [-(300 + k)] + list(ab["registry"]) + [-6] + list(ab["kinds"]) + [-5, ab["ptr"], ab["gridptr"], -4]
+    for u in ab["user"]:
+        out += list(u)
+    return out
 
 
 def _digest(conns):
@@ -620,15 +682,45 @@ def _apply(case, side, op):
     sp = side.space
     cells = list(sp._cells.values())
     isgrid = case["stype"] in GRIDS
-    if kind == "move":
+    fixed_cls = _agent_classes()["fixed"]
+    if kind in ("move", "leave", "relmove", "placefixed"):
+        a0 = side.tab.get(op[2])
+        if a0 is not None and isinstance(a0, fixed_cls) and a0.cell is not None:
+            # a placed FixedAgent refuses every change of its cell
+            if kind in ("move", "placefixed", "leave"):
+                target = None if kind == "leave" else (cells[op[3]] if 0 <= op[3] < len(cells) else cells[0])
+                try:
+                    a0.cell = target
+                except ValueError:
+                    return [-1, E_FIXED]
+                raise RuntimeError("a placed FixedAgent accepted a new cell")
+            return [-1, E_FIXED]
+    if kind in ("move", "placefixed"):
         _, _, lab, ci = op
         if not 0 <= ci < len(cells):
             return [-2]
         a = side.tab.get(lab)
         if a is None:
-            a = _agent_classes()["cell"](side.model, lab)
+            a = _agent_classes()["fixed" if kind == "placefixed" else "cell"](side.model, lab)
             side.tab[lab] = a
         return _do_move(a, cells[ci])
+    if kind == "kill":
+        a = side.tab.get(op[2])
+        if a is None or isinstance(a, fixed_cls) or a not in side.model._agents:
+            return [-2]
+        a.remove()
+        return [0]
+    if kind == "setuser":
+        _, _, ci, name, v = op
+        if not 0 <= ci < len(cells):
+            return [-2]
+        setattr(cells[ci], f"u{name}", v)
+        return [0]
+    if kind == "delempty":
+        if not isgrid or "empty" not in sp._mesa_property_layers:
+            return [-2]
+        sp.remove_property_layer("empty")
+        return [0]
     if kind == "leave":
         a = side.tab.get(op[2])
         if a is None or a.cell is None:
@@ -697,8 +789,9 @@ def _apply(case, side, op):
     raise ValueError(kind)
 
 
-def _fresh_like(case, src):
-    """a freshly constructed space (normal constructor) put into the abstract state of `src`"""
+def _fresh_like(case, src, reached=True):
+    """a freshly constructed space + model (normal constructors) put into the abstract state of `src` as a copy carries
+    it: the registry (incl. off-grid agents) only when the model object is reached by the copy"""
     import mesa
 
     m = mesa.Model(seed=1)
@@ -711,20 +804,41 @@ def _fresh_like(case, src):
         sp.remove_property_layer("empty")
     tw = _Side(sp, m, {}, True)
     tcells = list(sp._cells.values())
+    classes = _agent_classes()
+    made = {}
+
+    def mk(a):
+        b = classes["fixed" if isinstance(a, classes["fixed"]) else "cell"](m, a.vid)
+        made[id(a)] = b
+        tw.tab[a.vid] = b
+        return b
+
+    if reached:
+        for a in src.model._agents:      # registration order, off-grid agents included
+            mk(a)
     for i, c in enumerate(src.space._cells.values()):
         for a in c._agents:
-            b = _agent_classes()["cell"](m, a.vid)
+            b = made.get(id(a))
+            if b is None:                # on the grid but removed from the model earlier
+                b = mk(a)
+                m.deregister_agent(b)
             b.cell = tcells[i]
-            tw.tab[a.vid] = b
-        if not isgrid and "empty" in c.__dict__:
-            tcells[i].empty = c.__dict__["empty"]
+        if not isgrid:
+            if "empty" in c.__dict__:
+                tcells[i].empty = c.__dict__["empty"]
+            for n in USER_NAMES:         # pickle_gridcell drops the instance __dict__ of grid cells, other cells keep it
+                if f"u{n}" in c.__dict__:
+                    setattr(tcells[i], f"u{n}", c.__dict__[f"u{n}"])
     if isgrid:
         for name, layer in src.space._mesa_property_layers.items():
             sp._mesa_property_layers[name].data[...] = layer.data
     return tw
 
 
-def _cmp_abs(a, b):
+_EXTRA_ASPECTS = ("registry", "user")
+
+
+def _cmp_abs(a, b, extras=True):
     """names of the aspects in which two abstract views differ"""
     diff = []
     if len(a["cells"]) != len(b["cells"]):
@@ -740,7 +854,7 @@ def _cmp_abs(a, b):
         ly = {n: (av, dv) for n, av, dv in y["layers"]}
         if set(lx) != set(ly) or any(lx[n][1] != ly[n][1] for n in lx):
             diff.append("layer-values")
-        elif any(lx[n][0] != ly[n][0] for n in lx) or (lx and x["empty_attr"] != y["empty_attr"]):
+        elif any(lx[n][0] != ly[n][0] for n in lx) or (0 in lx and x["empty_attr"] != y["empty_attr"]):
             diff.append("cell-attributes")
     if a["conns"] != b["conns"]:
         diff.append("connections")
@@ -748,6 +862,11 @@ def _cmp_abs(a, b):
         diff.append("empties")
     if a["members"] != b["members"]:
         diff.append("members")
+    if a["kinds"] != b["kinds"]:
+        diff.append("agent-kinds")
+    for extra in (_EXTRA_ASPECTS if extras else ()):
+        if a[extra] != b[extra]:
+            diff.append(extra)
     out = []
     for d in diff:
         if d not in out:
@@ -819,6 +938,8 @@ def _run_space(case):
                         for c in sp2._cells.values():
                             for a in c._agents:
                                 tab2[getattr(a, "vid", -1)] = a
+                        # the model object is reached from the space exactly when some agent stands on the grid
+                        reached = root == 1 or bool(tab2)
                         if root == 1:
                             m2 = new
                         elif tab2:
@@ -826,18 +947,26 @@ def _run_space(case):
                         else:
                             m2 = mesa.Model(seed=1)
                             m2.grid = sp2
+                        if reached:
+                            for a in m2._agents:           # the registry travels with the model, off-grid agents included
+                                tab2.setdefault(getattr(a, "vid", -1), a)
                         ns = _Side(sp2, m2, tab2, True)
                         sides.append(ns)
                         touched = len(sides) - 1
                         res = [0]
                         ab_new = _abs(case, ns)
                         ab_src = prev[src]
-                        for aspect in _cmp_abs(ab_src, ab_new):
+                        aspects = _cmp_abs(ab_src, ab_new, extras=False)
+                        if reached and ab_src["registry"] != ab_new["registry"]:
+                            aspects.append("registry")
+                        if not isgrid and ab_src["user"] != ab_new["user"]:
+                            aspects.append("user-attributes")
+                        for aspect in aspects:
                             add(i, f"copy/unfaithful-{aspect}",
                                 f"{MECH[mech]} of side {src} ({type(s.space).__name__}, root={'space' if root == 0 else 'model'}): "
                                 f"{aspect} of the copy differ from the original")
                         try:
-                            ns.twin = _fresh_like(case, s)
+                            ns.twin = _fresh_like(case, s, reached)
                         except Exception:  # noqa: BLE001
                             ns.twin = None
                         prev.append(ab_new)
@@ -878,6 +1007,9 @@ def _run_space(case):
             o += _side_obs(k, ab)
         shared = _detached(case, sides)
         o.append(0 if shared else 1)
+        for k, ab in enumerate(cur):
+            o += _world_obs(k, ab)
+        o.append(1 if len({id(sd.model) for sd in sides}) == len(sides) else 0)
         obs.append(o)
         # ---- the statement
         if shared:
@@ -885,12 +1017,22 @@ def _run_space(case):
         for k, ab in enumerate(cur):
             if sides[k].is_copy:
                 _check_wiring(case, cls, k, ab, i, failures, f"after {op}")
+                if not ab["ptr"]:
+                    add(i, "copy/agent-model-not-the-copys-model",
+                        f"after {op}: an agent of side {k} (a copy) has .model pointing to another model object than the copy's")
+                if not ab["gridptr"]:
+                    add(i, "copy/model-grid-not-the-copy", f"after {op}: model.grid of side {k} (a copy) is not the copied space")
+                if ab["api"] != ab["registry"]:
+                    add(i, "copy/model-agents-differ-from-registry",
+                        f"after {op}: model.agents of side {k} (a copy) lists {ab['api']} but the model's registry holds {ab['registry']}")
             if k != touched and k < len(prev):
                 d = _cmp_abs(prev[k], ab)
                 if d:
                     add(i, "copy/not-independent", f"{op} (on side {touched}) changed {d} of side {k}")
             if k == touched and sides[k].twin is not None and kind != "copy":
                 d = _cmp_abs(_abs(case, sides[k].twin), ab)
+                if isgrid and "user" in d:
+                    d.remove("user")   # that grid cells drop user attributes is documented, not required by the statement
                 for aspect in d:
                     add(i, f"copy/not-fresh-{aspect}",
                         f"after {op} on side {k} (a copy) its {aspect} differ from those of a freshly built space in the same "
@@ -917,7 +1059,9 @@ def _run_aset(case):
     for lab in sorted(case["init"]):
         tab0[lab] = plain(m0, lab)
     sides = [{"set": AgentSet([tab0[lab] for lab in case["init"]], random=m0.random), "tab": tab0, "model": m0,
-              "shadow": list(case["init"]), "keep": list(tab0.values())}]
+              "shadow": list(case["init"]), "keep": list(tab0.values()), "pinned": True}]
+    del m0, tab0      # the side record holds the only strong references (see "sforget")
+    a = new = keep = ns = tab2 = m2 = None
 
     def add(i, key, what):
         failures.append({"key": f"C19/AgentSet/{key}", "op": i, "what": what})
@@ -945,7 +1089,7 @@ def _run_aset(case):
                     if new is not None:
                         tab2 = {getattr(a, "vid", -1): a for a in keep}
                         m2 = keep[0].model if keep else mesa.Model(seed=1)
-                        ns = {"set": new, "tab": tab2, "model": m2, "shadow": list(s["shadow"]), "keep": keep}
+                        ns = {"set": new, "tab": tab2, "model": m2, "shadow": list(s["shadow"]), "keep": keep, "pinned": False}
                         sides.append(ns)
                         touched = len(sides) - 1
                         res = [0]
@@ -958,14 +1102,37 @@ def _run_aset(case):
                         elif new.random.getstate() != s["set"].random.getstate():
                             add(i, "copy/unfaithful-generator", "the copy's generator is not in the state of the original's")
                         prev.append(view(ns))
+            elif kind == "sforget":
+                # the program drops every strong reference to the members (and to their model); an AgentSet holds its
+                # members weakly, so after a collection it is empty - documented weak-reference behaviour
+                s_i = op[1]
+                if 0 <= s_i < len(sides):
+                    s = sides[s_i]
+                    touched = s_i
+                    a = new = keep = ns = tab2 = m2 = None
+                    if s["pinned"]:
+                        # Agent._ids (class-level, keyed by model) holds a model for ever once an agent was created with
+                        # it, and the model's registry holds its agents: nothing can be forgotten on such a side
+                        res = [-2]
+                    else:
+                        s["keep"], s["tab"], s["model"], s["shadow"] = [], {}, None, []
+                        gc.collect()
+                        res = [0]
+                    if not s["pinned"] and (len(s["set"]) != 0 or list(s["set"])):
+                        add(i, "weakref/members-survive-without-references",
+                            f"after the last strong reference to its members was dropped and gc.collect() the set still has "
+                            f"{len(s['set'])} members")
             else:
                 _, s_i, lab = op
                 if 0 <= s_i < len(sides):
                     s = sides[s_i]
                     touched = s_i
                     a = s["tab"].get(lab)
+                    if s["model"] is None:
+                        s["model"] = mesa.Model(seed=1)
                     if a is None:
                         a = plain(s["model"], lab)
+                        s["pinned"] = True
                         s["tab"][lab] = a
                         s["keep"].append(a)
                     sh = s["shadow"]
@@ -1008,6 +1175,7 @@ def _run_aset(case):
                 if ia & ib:
                     shared = 1
         o.append(0 if shared else 1)
+        o.append(1)
         obs.append(o)
         if shared:
             add(i, "copy/not-detached-shared-object", f"after {op} two agent sets share a member object")
@@ -1030,6 +1198,24 @@ def run_impl(case):
 
 
 # ------------------------------------------------------------------ model side
+def _coq_wop(op):
+    k = op[0]
+    z = L.z
+    if k == "copy":
+        return f"WCopy {z(op[1])} {z(op[2])} {z(op[3])}"
+    if k == "placefixed":
+        return f"PlaceFixed {z(op[1])} {z(op[2])} {z(op[3])}"
+    if k == "kill":
+        return f"Kill {z(op[1])} {z(op[2])}"
+    if k == "setuser":
+        return f"SetUser {z(op[1])} {z(op[2])} {z(op[3])} {z(op[4])}"
+    if k == "sforget":
+        return f"SForget {z(op[1])}"
+    if k == "delempty":
+        return f"DelEmpty {z(op[1])}"
+    return f"Inner ({_coq_op(op)})"
+
+
 def _coq_op(op):
     k = op[0]
     z = L.z
@@ -1063,7 +1249,12 @@ def _coq_op(op):
 
 
 def coq_case(case):
-    ops = L.lst([_coq_op(o) for o in case["ops"]])
+    ops = L.lst([_coq_wop(o) for o in case["ops"]])
+    return f"{{| wc_case := {_coq_inner_case(case)}; wc_ops := {ops} |}}"
+
+
+def _coq_inner_case(case):
+    ops = "[]"
     if case["kind"] == "aset":
         return (f"{{| c_space := false; c_grid := false; c_caps := []; c_conn := []; c_layers := []; "
                 f"c_set := {L.zlist(case['init'])}; c_ops := {ops} |}}")
